@@ -7,7 +7,7 @@ trap 'cd /verif; rm -rf "$d"' EXIT
 rsync -a --exclude .git /repo/ "$d/repo/"
 (cd "$d/repo" && patch -p1 -s < /verif/seeded/$name/patch.diff) || { echo "PATCH DOES NOT APPLY"; exit 3; }
 for c in $ids; do
-  out=$(CSVERIFY_REPO="$d/repo" CSVERIFY_EVIDENCE_DIR="$d/ev" /verif/bin/csverify check $c 2>&1)
+  out=$(CSVERIFY_REPO="$d/repo" CSVERIFY_EVIDENCE_DIR="$d/ev" ${CSVERIFY_BIN:-/verif/bin/csverify} check $c 2>&1)
   echo "$name $c: $(echo "$out" | grep -c '^FINDING') finding(s)"
   echo "$out" | grep -E "^(FINDING|INFRA)" | cut -c1-420 | head -5
 done
